@@ -644,7 +644,15 @@ class TCPHiddenServiceEndpoint(object):
                         group_readable=self.group_readable,
                         version=self.version,
                     )
-            self.hiddenservice = yield create_d
+            try:
+                self.hiddenservice = yield create_d
+            except Exception:
+                # don't leave our local listener open if the service
+                # couldn't be created
+                port = self.tcp_listening_port
+                self.tcp_listening_port = None
+                yield defer.maybeDeferred(port.stopListening)
+                raise
 
         else:
             if not self.ephemeral:
